@@ -13,17 +13,17 @@ use vref::sec::Licence;
 /// one coordinate per dimension; 0 is the default
 pub type Assign = Vec<usize>;
 
-pub const DIM_NAMES: [&str; 22] = [
+pub const DIM_NAMES: [&str; 24] = [
     "use_nla", "restricted_admin", "blank_creds", "auto_logon", "use_hash", "client_name", "screen", "layout", "credentials", "select_ssl_although_nla", "user_id", "share_id", "version", "sc_core_optional", "block_order", "unknown_block", "channels", "licence",
-    "capabilities", "source_descriptor", "reactivations", "reuse_share_id_on_reactivation",
+    "capabilities", "source_descriptor", "reactivations", "reuse_share_id_on_reactivation", "licence_security_flags", "set_error_info_during_finalization",
 ];
 
 pub fn names() -> Vec<String> {
-    vec!["rdp-rs".into(), "".into(), "a".repeat(15), "a".repeat(16), "a".repeat(17), "é".into(), "日本語".into(), "é".repeat(15)]
+    vec!["rdp-rs".into(), "".into(), "a".repeat(15), "a".repeat(16), "a".repeat(17), "é".into(), "日本語".into(), "é".repeat(15), "pc-😀".into()]
 }
 
 pub fn dim_sizes() -> Vec<usize> {
-    vec![2, 2, 2, 2, 2, names().len(), 4, 3, 3, 2, 6, 4, 5, 3, 6, 2, 3, 5, 4, 3, 3, 2]
+    vec![2, 2, 2, 2, 2, names().len(), 4, 3, 3, 2, 6, 4, 5, 3, 6, 2, 3, 5, 4, 3, 3, 2, 2, 5]
 }
 
 pub fn build(a: &Assign) -> (ConnCfg, ServerParams) {
@@ -62,6 +62,8 @@ pub fn build(a: &Assign) -> (ConnCfg, ServerParams) {
     p.source_descriptor = [b"RDP\0".to_vec(), vec![], vec![0x41; 300]][a[19]].clone();
     p.reactivations = a[20];
     p.reuse_share_id = a[21] == 1;
+    p.licence_sec_flags = [0x0080u16, 0x0280][a[22]];
+    p.errinfo_before = a[23];
     (c, p)
 }
 
@@ -124,7 +126,7 @@ impl Prop for C03 {
         d
     }
     fn rule(&self) -> String {
-        format!("cases = (connector configuration, conforming-server parameters) over 22 dimensions ({} alternatives in total): NLA, restricted admin, blank credentials, auto logon, password|hash, 8 client names, 4 screen sizes, 3 layouts, 3 credential sets, SSL although NLA offered, 6 user ids (1001..65535), 4 share ids, 5 versions, optional SC_CORE fields, 6 block orders, unknown block, SC_NET padding, 5 licence variants, 4 capability lists (incl. the Windows capture, unknown and empty sets), 3 source-descriptor lengths, 0..2 reactivations, fresh or reused share id on reactivation. Enumerated: the default, every single alternative, every pair, every triple (every quadruple in thorough). Each case is a full real Connector::connect over real TLS + activation + 4 input events + shutdown; oracle: success, mandated message order, no message written while the reply it depends on is unread, identifiers echoed. Non-trivial: at least one non-default coordinate.", dim_sizes().iter().map(|s| s - 1).sum::<usize>())
+        format!("cases = (connector configuration, conforming-server parameters) over 24 dimensions ({} alternatives in total): NLA, restricted admin, blank credentials, auto logon, password|hash, 9 client names, 4 screen sizes, 3 layouts, 3 credential sets, SSL although NLA offered, 6 user ids (1001..65535), 4 share ids, 5 versions, optional SC_CORE fields, 6 block orders, unknown block, SC_NET padding, 5 licence variants, 4 capability lists (incl. the Windows capture, unknown and empty sets), 3 source-descriptor lengths, 0..2 reactivations, fresh or reused share id on reactivation, licence security-header flags 0x0080 / 0x0280, a Set Error Info (ERRINFO_NONE) PDU before each of the four server finalization PDUs. Enumerated: the default, every single alternative, every pair, every triple (every quadruple in thorough). Each case is a full real Connector::connect over real TLS + activation + 4 input events + shutdown; oracle: success, mandated message order, no message written while the reply it depends on is unread, identifiers echoed. Non-trivial: at least one non-default coordinate.", dim_sizes().iter().map(|s| s - 1).sum::<usize>())
     }
     fn assumptions(&self) -> Vec<String> {
         vec![
@@ -234,7 +236,7 @@ impl Prop for C04 {
         }
     }
     fn rule(&self) -> String {
-        "cases = full conversations (as C03) whose every client message is parsed by the strict reference parsers: TPKT/X.224, BER connect-initial, PER conference-create-request (length = 14 + blocks), CS_CORE/CS_SECURITY/CS_NET block lengths, clientName = 32 bytes holding <=15 UTF-16 units + NUL, info packet cb* fields / terminators / extended info, share control totalLength, share data lengths, confirm-active counts and per-type capability sizes, input PDU numEvents, NTLM NEGOTIATE/AUTHENTICATE descriptor triples, strict DER TSRequest/TSCredentials. Configurations: default, every single alternative and every pair of the 22 C03 dimensions (every triple in thorough), and every string of the Unicode alphabet (class^len for class in {a, é, 日, 😀} x len in {0,1,7,8,15,16,17,31,32,64}, every mixed string of <=3 code points) as client name, domain, user and password, with NLA on and off; plus the length sweep: domain, user and password of every length 0..140 UTF-16 units (0..300 thorough) against an RDP5 and an RDP4 server (info packet with and without extended info), NLA on and off, so that every emitted length field crosses its 0x7f/0x80 and 0xff/0x100 encoding boundaries. Non-trivial: every case but the default.".into()
+        "cases = full conversations (as C03) whose every client message is parsed by the strict reference parsers: TPKT/X.224, BER connect-initial, PER conference-create-request (length = 14 + blocks), CS_CORE/CS_SECURITY/CS_NET block lengths, clientName = 32 bytes holding <=15 UTF-16 units + NUL, info packet cb* fields / terminators / extended info, share control totalLength, share data lengths, confirm-active counts and per-type capability sizes, input PDU numEvents, NTLM NEGOTIATE/AUTHENTICATE descriptor triples, strict DER TSRequest/TSCredentials. Configurations: default, every single alternative and every pair of the 24 C03 dimensions (every triple in thorough), and every string of the Unicode alphabet (class^len for class in {a, é, 日, 😀} x len in {0,1,7,8,15,16,17,31,32,64}, every mixed string of <=3 code points, the boundary code points of every UTF-8/UTF-16 encoding length) as client name, domain, user and password, with NLA on and off; plus the length sweep: domain, user and password of every length 0..140 UTF-16 units (0..300 thorough) against an RDP5 and an RDP4 server (info packet with and without extended info), NLA on and off, so that every emitted length field crosses its 0x7f/0x80 and 0xff/0x100 encoding boundaries. Non-trivial: every case but the default.".into()
     }
     fn assumptions(&self) -> Vec<String> {
         vec![
